@@ -19,8 +19,15 @@
   Glyph rendering (`Font.render_text`, already coloured) and `colourmap.split_attr(attr)[1]` are
   PARAMETERS (`Env.glyph`, `Env.backOf`).  `_draw_text` renders maximal same-attribute chunks; the
   model renders cell by cell (same pixels, since a chunk sprite is the hstack of its glyphs).
-  Single-byte codepages only: `_refresh_dbcs` maps each byte independently, so the unicode buffer
-  `_dbcs_text` is modelled by the byte codes themselves (`utext`).  Row length / wrap flags are not
+  `_refresh_dbcs` converts a whole row of bytes into the cells of the unicode buffer `_dbcs_text`
+  (`utext`) through the PARAMETER `Env.conv` (identity for single-byte codepages; lead/trail pairing
+  for DBCS codepages, where a written byte can change cells left and right of it); the dirty range is
+  widened to the first/last changed cell.  Pixel writes happen in graphics modes only, where DBCS is
+  off (`POp.valid`).  Rendering stays cell by cell: full-width sprites are not modelled, the display
+  theorem does not depend on WHAT is drawn, only on WHERE — `_draw_text` changes pixels only inside the
+  cells `start..stop` it is called for.  That is the REPAIRED `_draw_text_chunk` (sprite clipped to the
+  cells of its chunk); before, a full-width glyph drawn for its lead cell alone painted the neighbouring
+  cell too, outside the rectangle that is submitted (`drawTextWide` below).  Row length / wrap flags are not
   modelled (they never reach the display).  `scroll_up/scroll_down` are the REPAIRED versions (the
   vacated text row is filled with the background attribute; `scroll_down` deletes row `to` of the
   character buffer); `scrollUpOld/scrollDownOld/rowsDownOld` are the code before the repair (defect
@@ -49,8 +56,33 @@ def Geom.W (g : Geom) : Nat := g.tw * g.fw   -- pixel width
 
 structure Env where
   g : Geom
-  glyph : Nat → Nat → Mat      -- char code, attribute ↦ rendered fh×fw sprite
+  glyph : Nat → Nat → Mat      -- cell code, attribute ↦ rendered fh×fw sprite
   backOf : Nat → Nat           -- split_attr(attr)[1]
+  /-- `Converter.to_unicode_list(raw, flush=True)` on one row of bytes: the code of every cell of the
+      unicode buffer (a double-byte character occupies its lead cell, the trail cell holds the `u''`
+      marker).  A PARAMETER: identity for single-byte codepages; under a DBCS codepage the cell at
+      column `c` depends on the neighbouring bytes, so writing one byte can change cells to the LEFT
+      and to the RIGHT of it. -/
+  conv : (Nat → Nat) → Nat → Nat
+  /-- `_dbcs_enabled` (double-byte codepage and a text mode with a 14/16-pixel font) -/
+  dbcs : Bool
+
+/-- single-byte codepages: every byte is its own cell -/
+def sbcsConv : (Nat → Nat) → Nat → Nat := fun row c => row c
+
+/-- is cell `c` the trail half of a double-byte character?  (`Converter._process_nobox`: a lead byte
+    followed by a trail byte pairs up, unless the lead was itself consumed as a trail) -/
+def isSecond (isLead isTrail : Nat → Bool) (row : Nat → Nat) : Nat → Bool
+  | 0 => false
+  | c + 1 => !isSecond isLead isTrail row c && isLead (row c) && isTrail (row (c + 1))
+
+/-- `to_unicode_list` of a row of `tw` bytes under a DBCS codepage without box protection: a pair is
+    coded `256·lead + trail` in its first cell and `65535` (the `u''` marker) in its second; a lead
+    byte at the end of the row stays a single byte -/
+def pairConv (isLead isTrail : Nat → Bool) (tw : Nat) : (Nat → Nat) → Nat → Nat := fun row c =>
+  if isSecond isLead isTrail row c then 65535
+  else if isLead (row c) && decide (c + 1 < tw) && isTrail (row (c + 1)) then 256 * row c + row (c + 1)
+  else row c
 
 /-! ### video signals -/
 
@@ -118,6 +150,15 @@ def drawText (e : Env) (p : Page) (row start stop : Nat) : Mat :=
     then e.glyph (p.utext (row - 1) c) (p.attrs (row - 1) c) (y - (row - 1) * e.g.fh) (x % e.g.fw)
     else p.px y x
 
+/-- `_draw_text` BEFORE the repair, for a range that ends on the lead cell of a full-width character:
+    the glyph is two cells wide and also paints cell `stop + 1` (with the lead cell's attribute) -/
+def drawTextWide (e : Env) (p : Page) (row start stop : Nat) : Mat :=
+  fun y x =>
+    let c := x / e.g.fw
+    if (row - 1) * e.g.fh ≤ y ∧ y < (row - 1) * e.g.fh + e.g.fh ∧ c + 1 = stop + 1
+    then e.glyph (p.utext (row - 1) c) (p.attrs (row - 1) (stop - 1)) (y - (row - 1) * e.g.fh) (x % e.g.fw)
+    else drawText e p row start stop y x
+
 /-- smallest `c+1` with `c < n`, `old c ≠ new c`; `dflt` if none (`updated.index(True) + 1`) -/
 def firstDiff (old new : Nat → Nat) (dflt : Nat) : Nat → Nat
   | 0 => dflt
@@ -130,7 +171,7 @@ def lastDiff (old new : Nat → Nat) : Nat → Nat
 
 /-- one iteration of `force_submit`: `_refresh_dbcs`, `_draw_text`, `_submit` for a dirty row -/
 def submitRow (e : Env) (p : Page) (row l r : Nat) : Page × List Signal :=
-  let newu : Nat → Nat := fun c => p.chars (row - 1) c
+  let newu : Nat → Nat := e.conv (fun c => p.chars (row - 1) c)
   let oldu : Nat → Nat := fun c => p.utext (row - 1) c
   let start := min (firstDiff oldu newu e.g.tw e.g.tw) l
   let stop := max (lastDiff oldu newu e.g.tw) r
@@ -168,17 +209,23 @@ def putChar (e : Env) (p : Page) (row col ch attr : Nat) : Page × List Signal :
     attrs := fun r c => if r = row - 1 ∧ c = col - 1 then attr else p.attrs r c }
   markDirty e p1 row col col
 
-/-- `_clear_text_area(from_row, from_col, to_row, to_col, attr, …)` (single-byte codepage branch) -/
-def clearTextArea (p : Page) (r0 c0 r1 c1 attr : Nat) : Page :=
+/-- `_clear_text_area(from_row, from_col, to_row, to_col, attr, …)`.  With DBCS enabled and a clear
+    that does not span whole rows, the unicode buffer of the affected rows is rebuilt from the bytes
+    (`_refresh_dbcs(row, 1, width)`, result ignored: lead or trail bytes may have been replaced by
+    spaces, cells earlier or later on the row can change); otherwise the cells are blanked directly. -/
+def clearTextArea (e : Env) (p : Page) (r0 c0 r1 c1 attr : Nat) : Page :=
   let inA : Nat → Nat → Bool := fun r c => decide (r0 - 1 ≤ r ∧ r < r1 ∧ c0 - 1 ≤ c ∧ c < c1)
+  let chars : Mat := fun r c => if inA r c then 32 else p.chars r c
   { p with
-    chars := fun r c => if inA r c then 32 else p.chars r c
+    chars := chars
     attrs := fun r c => if inA r c then attr else p.attrs r c
-    utext := fun r c => if inA r c then 32 else p.utext r c }
+    utext := if e.dbcs && decide (c1 - c0 + 1 < e.g.tw)
+      then fun r c => if r0 - 1 ≤ r ∧ r < r1 then e.conv (fun c' => chars r c') c else p.utext r c
+      else fun r c => if inA r c then 32 else p.utext r c }
 
 /-- `clear_rows(start, stop, attr)` -/
 def clearRows (e : Env) (p : Page) (start stop attr : Nat) : Page × List Signal :=
-  let p1 := clearTextArea p start 1 stop e.g.tw attr
+  let p1 := clearTextArea e p start 1 stop e.g.tw attr
   let back := e.backOf attr
   let p2 := { p1 with px := fillRect p1.px ((start - 1) * e.g.fh) (stop * e.g.fh) 0 (e.g.tw * e.g.fw) back }
   let (p3, s) := forceSubmit e p2
@@ -187,7 +234,7 @@ def clearRows (e : Env) (p : Page) (start stop attr : Nat) : Page × List Signal
 /-- `clear_row_from(row, col, attr)` -/
 def clearRowFrom (e : Env) (p : Page) (row col attr : Nat) : Page × List Signal :=
   if col = 1 then clearRows e p row row attr
-  else markDirty e (clearTextArea p row col row e.g.tw attr) row 1 e.g.tw
+  else markDirty e (clearTextArea e p row col row e.g.tw attr) row 1 e.g.tw
 
 /-- the text rows `frm..to` move up by one, row `to` becomes `blank` -/
 def rowsUp (m : Mat) (frm to blank : Nat) : Mat :=
@@ -248,7 +295,7 @@ def setPixels (e : Env) (p : Page) (y0 y1 x0 x1 : Nat) (data : Mat) : Page × Li
   let col0 := cellOf e.g.tw e.g.fw x0
   let row1 := cellOf e.g.th e.g.fh (y1 - 1)
   let col1 := cellOf e.g.tw e.g.fw (x1 - 1)
-  let p2 := clearTextArea p1 row0 col0 row1 col1 0
+  let p2 := clearTextArea e p1 row0 col0 row1 col1 0
   (p2, submit e p2 row0 col0 row1 col1)
 
 /-- `set_visible(visible)` -/
@@ -294,7 +341,7 @@ def POp.valid (e : Env) (p : Page) : POp → Prop
   | .clearRowFrom row col _ => 1 ≤ row ∧ row ≤ e.g.th ∧ 1 ≤ col ∧ col ≤ e.g.tw ∧ p.locked = false
   | .scrollUp frm to _ => 1 ≤ frm ∧ frm ≤ to ∧ to ≤ e.g.th
   | .scrollDown frm to _ => 1 ≤ frm ∧ frm ≤ to ∧ to ≤ e.g.th
-  | .setPixels y0 y1 x0 x1 _ => y0 < y1 ∧ y1 ≤ e.g.H ∧ x0 < x1 ∧ x1 ≤ e.g.W
+  | .setPixels y0 y1 x0 x1 _ => y0 < y1 ∧ y1 ≤ e.g.H ∧ x0 < x1 ∧ x1 ≤ e.g.W ∧ e.dbcs = false
 
 /-! ### the display: several pages, one visible -/
 
